@@ -577,7 +577,7 @@ def run_parallel(col):
 def run_expression(col, tier):
     from . import c02_expr
 
-    c02_expr.run(col, tier)
+    c02_expr.run_expression(col, tier)
 
 
 def run_threads(col):
